@@ -22,21 +22,12 @@ theorem spanP_nl_cr (l : Bytes)
         simp only [spanP, e1, e2, Bool.and_self, if_true] at h ⊢
         rw [ih h]
 
-theorem sBlock_eq_lBlock (u : Bytes) (hn : hasPair SLASH STAR (lBlock 1 u).1 = false)
-    (hl : (lBlock 1 u).2.length ≠ 1) : sBlock u = lBlock 1 u := by
+theorem sBlock_eq_lBlock (u : Bytes) (hn : hasPair SLASH STAR (lBlock 1 u).1 = false) :
+    sBlock u = lBlock 1 u := by
   fun_induction sBlock u
   · simp [lBlock]
   · simp [lBlock]
-  · rename_i c c2 t2 hc hlen
-    obtain ⟨h1, h2⟩ := hc
-    subst h1 h2
-    simp [lBlock] at hl ⊢
-    have : t2 = [] := by
-      cases t2 with
-      | nil => rfl
-      | cons a t => simp at hlen hl; subst hlen; simp at hl
-    simp [this]
-  · rename_i c c2 t2 hc hlen
+  · rename_i c c2 t2 hc
     obtain ⟨h1, h2⟩ := hc
     subst h1 h2
     simp [lBlock]
@@ -46,9 +37,9 @@ theorem sBlock_eq_lBlock (u : Bytes) (hn : hasPair SLASH STAR (lBlock 1 u).1 = f
     · obtain ⟨h1, h2⟩ := hs
       subst h1 h2
       simp [lBlock, hasPair, SLASH, STAR] at hn
-    · simp only [lBlock, hc', hs, if_false] at hn hl ⊢
+    · simp only [lBlock, hc', hs, if_false] at hn ⊢
       have hn' := hasPair_tail _ _ _ _ hn
-      have := ih hn' hl
+      have := ih hn'
       simp only [r, this]
 
 theorem idCont_not_dash_slash (c : UInt8) (h : isIdCont c = true) : c ≠ DASH ∧ c ≠ SLASH := by
@@ -129,10 +120,7 @@ theorem sTok_eq_lTok (inId : Bool) (c : UInt8) (t : Bytes) (hk : kTokS inId c t 
     by_cases hn : hasPair SLASH STAR (lBlock 1 t.tail).1 = true
     · simp [hn, kNested] at hk
     · simp at hn
-      simp [hn] at hk
-      have hl : (lBlock 1 t.tail).2.length ≠ 1 := by
-        intro hh; simp [hh, kByteAfterBlock] at hk
-      simp only [sTok, if_neg h5, if_pos h6, sBlock_eq_lBlock _ hn hl]
+      simp only [sTok, if_neg h5, if_pos h6, sBlock_eq_lBlock _ hn]
   · rw [lTok_other _ _ _ h0 h1 h2 h3 h4 h5 h6]
     simp [sTok, h5, h6]
 
